@@ -36,7 +36,9 @@ func runC11(c *report.Ctx) {
 
 	// ---- (2) writer exclusion ----------------------------------------------------------------------
 	ruleWriterLock(c)
-	notRO := func(a an.Atom) bool { return a.Op == token.ILLEGAL && !a.Truth && strings.HasSuffix(p.Desc(a.X), ".readOnly") }
+	notRO := func(a an.Atom) bool {
+		return a.Op == token.ILLEGAL && !a.Truth && strings.HasSuffix(p.Desc(a.X), ".readOnly")
+	}
 
 	// ---- (3) read-only guard ------------------------------------------------------------------------------
 	c.Rule("readonly-guard", "batch.Put/batch.Delete are reached only under !tx.readOnly (locally or in every ldb caller)", 8)
@@ -462,8 +464,12 @@ func ruleWriterLock(c *report.Ctx) {
 			c.OK(sk(beginRead)+":no-lock", "read transactions do not take the writer mutex", p.Pos(beginRead.Pos()))
 		}
 	}
-	notRO := func(a an.Atom) bool { return a.Op == token.ILLEGAL && !a.Truth && strings.HasSuffix(p.Desc(a.X), ".readOnly") }
-	isRO := func(a an.Atom) bool { return a.Op == token.ILLEGAL && a.Truth && strings.HasSuffix(p.Desc(a.X), ".readOnly") }
+	notRO := func(a an.Atom) bool {
+		return a.Op == token.ILLEGAL && !a.Truth && strings.HasSuffix(p.Desc(a.X), ".readOnly")
+	}
+	isRO := func(a an.Atom) bool {
+		return a.Op == token.ILLEGAL && a.Truth && strings.HasSuffix(p.Desc(a.X), ".readOnly")
+	}
 	for _, f := range []*ssa.Function{commit, rollback} {
 		if f == nil {
 			continue
